@@ -114,8 +114,12 @@ func discover(t reflect.Type, msPrefix, yamlPrefix, goPrefix string, index [][]i
 		if !okMS || ms == "" || ms == "-" {
 			ms = strings.ToLower(f.Name)
 		}
-		// goccy/go-yaml without a tag uses the lower-cased field name
-		if !okYA || ya == "" || ya == "-" {
+		// goccy/go-yaml without a tag uses the lower-cased field name; a field that is never
+		// written (yaml:"-") can only be hand-written under the key the loader decodes
+		switch {
+		case ya == "-":
+			ya = ms
+		case !okYA || ya == "":
 			ya = strings.ToLower(f.Name)
 		}
 		ft := f.Type
